@@ -187,6 +187,31 @@ def start_mesh(ck, case):
             shutil.rmtree(d, ignore_errors=True)
         ck.count("se_gen_parsed")
         return (se.vertices, se.edges, se.cells), None
+    if t == "skeleton_lines":
+        # an explicit drawing: straight pixel lines (Bresenham) on a black image, parsed as drawn
+        from props import c15
+        import tempfile
+        img = np.zeros((case["size"], case["size"]), dtype=np.uint8)
+        for x0, y0, x1, y1 in case["lines"]:
+            for x, y in c15.bresenham(x0, y0, x1, y1):
+                img[y, x] = 1
+        d = tempfile.mkdtemp(prefix="c09_")
+        try:
+            pth = os.path.join(d, "s.tif")
+            c15.to_file(img, pth, False)
+            try:
+                sk = impl.quiet(fs.skeleton.Skeleton, pth, mirror_y=case.get("mirror", False))
+                out = c15.quiet_unraisable(sk.create_lattice)
+            except Exception as ex:
+                if case.get("must_parse"):
+                    raise
+                ck.count("skeleton_lines_parser_raised_" + type(ex).__name__)
+                return None, None
+        finally:
+            import shutil
+            shutil.rmtree(d, ignore_errors=True)
+        ck.count("skeleton_lines_parsed")
+        return out, None
     if t == "skeleton_gen":
         # rasterised Voronoi tissue (the generator of C15): thinned to a minimal skeleton, or left as drawn (Bresenham lines,
         # which contain the artefact triangles that trigger vertex merging); optional right-angle jogs in the walls
